@@ -117,7 +117,7 @@ pub fn strategy() -> BoxedStrategy<Case> {
         prop::bool::weighted(0.15),
         prop_oneof![5 => Just(GlobMode::Off), 2 => (0u8..255).prop_map(GlobMode::Patterns), 1 => Just(GlobMode::Star)],
         prop::bool::weighted(0.4),
-        prop_oneof![3 => Just(0u8), 2 => 0u8..64],
+        prop_oneof![3 => Just(0u8), 2 => 0u8..128],
         prop::bool::weighted(0.12),
     )
         .prop_map(|(srcs, dest, dest_spell, flags, no_target_dir, target_dir_opt, glob, nolinks, extra, dest_via_link)| Case { srcs, dest, dest_spell, flags, no_target_dir, target_dir_opt, glob, nolinks, extra, dest_via_link, dup_basename: false })
@@ -360,6 +360,8 @@ pub fn build(c: &Case, root_abs: &[u8]) -> Built {
     inv.no_timestamps = c.extra & 4 != 0;
     inv.backup = if c.extra & 8 != 0 { "numbered".into() } else if c.extra & 16 != 0 { "auto".into() } else { String::new() };
     inv.ownership = c.extra & 32 != 0;
+    // no ignore file exists anywhere in these trees: the option must change nothing, whatever kind the sources are
+    inv.gitignore = c.extra & 64 != 0;
     inv.recursive = src_is_dir.iter().any(|d| *d) || eff_kinds.iter().any(|k| matches!(k, SrcKind::LinkToDir)) || c.flags.1 % 2 == 0;
     inv.no_target_dir = no_target_dir;
     inv.target_dir_opt = target_dir_opt;
@@ -532,6 +534,9 @@ pub fn judge(c: &Case, rec: &mut Rec) -> Verdict {
         rec.sample(json!({"argv": b.inv.argv_s(), "dest_state": b.dest_state, "mapped_entries": mapped.len(), "mapping_head": mapped.iter().take(4).map(|m| format!("{} -> {} ({:?})", esc(&m.src), esc(&m.dst), m.kind)).collect::<Vec<_>>()}));
     }
     let opts = model::CmpOpts { allow_new: if b.inv.backup.is_empty() { None } else { Some(super::c04::is_backup_name) }, ..model::CmpOpts::default() };
+    if c.extra & 64 != 0 {
+        rec.class(format!("gitignore-without-ignore-file|first-source={}|exit={}", match c.srcs[0].kind { SrcKind::Tree(_) => "dir", SrcKind::File(..) => "file", _ => "link" }, if out.ok() { "0" } else { "!0" }));
+    }
     if c.extra != 0 {
         rec.class(format!("extra-options|{}", driver));
     }
@@ -557,7 +562,7 @@ impl Check for C02 {
         "C02"
     }
     fn rule(&self) -> String {
-        "proptest-generated sandbox: 1-3 sources (trees of depth<=4 with files, dirs, relative/absolute/dangling/outward symlinks, names with spaces, unicode, leading dots, '~', backup-like names and non-UTF-8 bytes below the top level; single files; sources that are themselves symlinks), destination absent / file / empty dir / pre-populated (same, differing, kind-changed entries, extras) / populated by a real earlier xcp run followed by source edits; path spellings (./, absolute, by/.., trailing slash, //), -T, --target-directory, --glob patterns, both drivers, workers, block sizes, fifo/socket entries inside trees, option noise (--fsync --no-perms --no-timestamps --backup=numbered|auto --ownership). Oracle: whole-sandbox lstat/readlink/content snapshot after exit 0 must equal the reference model's overlay of the pre-state (every mapped entry has the source's kind, bytes, link text; every other entry unchanged; nothing new). Non-trivial: exit 0 and (links or depth>=2 or populated destination or glob or >=2 sources).".into()
+        "proptest-generated sandbox: 1-3 sources (trees of depth<=4 with files, dirs, relative/absolute/dangling/outward symlinks, names with spaces, unicode, leading dots, '~', backup-like names and non-UTF-8 bytes below the top level; single files; sources that are themselves symlinks), destination absent / file / empty dir / pre-populated (same, differing, kind-changed entries, extras) / populated by a real earlier xcp run followed by source edits; path spellings (./, absolute, by/.., trailing slash, //), -T, --target-directory, --glob patterns, both drivers, workers, block sizes, fifo/socket entries inside trees, option noise (--fsync --no-perms --no-timestamps --backup=numbered|auto --ownership, and --gitignore with no ignore file anywhere), sources spelled dir/. and dir/sub/.. (cp copies the contents onto the destination itself). Oracle: whole-sandbox lstat/readlink/content snapshot after exit 0 must equal the reference model's overlay of the pre-state (every mapped entry has the source's kind, bytes, link text; every other entry unchanged; nothing new). Non-trivial: exit 0 and (links or depth>=2 or populated destination or glob or >=2 sources).".into()
     }
     fn assumptions(&self) -> Vec<String> {
         vec!["reference model = cp -R mapping rule as stated in the property; excluded by construction: destination symlinks at mapped positions, sources with identical basenames, glob patterns without matches".into()]
@@ -585,6 +590,6 @@ impl Check for C02 {
         }
     }
     fn required_classes(&self, _tier: Tier) -> Vec<String> {
-        ["dest=absent", "dest=file", "dest=emptydir", "dest=populated", "dest=realrun", "glob,", "T,", "td,", "nsrc=3", "top-symlink-source", "spell|src=Abs", "spell|src=DotDot", "dest-through-symlink", "source-in-contents-form|dir/sub/..", "source-in-contents-form|dir/."].iter().map(|s| s.to_string()).collect()
+        ["dest=absent", "dest=file", "dest=emptydir", "dest=populated", "dest=realrun", "glob,", "T,", "td,", "nsrc=3", "top-symlink-source", "spell|src=Abs", "spell|src=DotDot", "dest-through-symlink", "source-in-contents-form|dir/sub/..", "source-in-contents-form|dir/.", "gitignore-without-ignore-file|first-source=file|exit=0"].iter().map(|s| s.to_string()).collect()
     }
 }
